@@ -382,7 +382,7 @@ func (f *Filter) setRegexFilter(options ParseOptions) error {
 	if options&ParseOptimize != 0 && strings.HasPrefix(val, "^") && strings.HasSuffix(val, "$") {
 		val2 := strings.TrimPrefix(val, "^")
 		val2 = strings.TrimSuffix(val2, "$")
-		if !hasRegexpCharacters(val2) {
+		if !hasRegexpCharacters(val2) && !f.column.DataType.isNumeric() {
 			switch f.operator {
 			case RegexMatch:
 				f.operator = Equal
